@@ -179,8 +179,8 @@ func (m *Monitor) expectPublication(s *step, rl *Realm, publisher int, topic str
 				res.nCut++
 				continue
 			}
-			if rs.stalled {
-				continue // C07 handles stalled receivers separately
+			if rs.stalled || rs.dying {
+				continue // C07 handles stalled receivers separately; see obsKill for dying
 			}
 			res.nPred++
 			subID := sub.ID
